@@ -276,26 +276,45 @@ Proof.
     intro H; inversion H; subst. eapply kx_trans; [exact E|]. apply kx_with_objs. rewrite keys_update, loc_set_keys. reflexivity.
 Qed.
 
+Lemma top_number_ge m : forall id, has_obj m id -> (fst id <= top_number m)%N.
+Proof.
+  unfold has_obj, top_number. induction m as [|[i o] m IH]; cbn [map fst fold_right In]; [tauto|].
+  intros id [<-|H]; [lia|]. specialize (IH id H). lia.
+Qed.
+
+(* since /repo 19ab1a6 every save re-establishes the allocation invariant, whatever the document was *)
+Lemma raise_max_alloc d : alloc_ok (raise_max d).
+Proof. intros id H. cbn in *. apply top_number_ge in H. lia. Qed.
+
+Lemma save_effect_shape stream d :
+  d_objects (fst (save_effect stream d)) = d_objects d /\
+  (d_max_id (raise_max d) <= d_max_id (fst (save_effect stream d)))%N.
+Proof.
+  unfold save_effect. destruct (U32_MAX <=? d_max_id (raise_max d))%N; [cbn [fst]; split; [reflexivity | lia]|].
+  destruct (negb _); [cbn [fst]; split; [reflexivity | lia]|].
+  destruct stream; [destruct (U32_MAX <=? d_max_id (raise_max d) + 1)%N|];
+    unfold SaveState.mutate, SaveState.mutate_stream, SaveState.mutate_table, with_state, state_of;
+    cbn [d_max_id d_objects SaveState.s_max_id fst]; (split; [reflexivity | lia]).
+Qed.
+
+Theorem save_alloc stream d : alloc_ok (fst (save_effect stream d)).
+Proof.
+  destruct (save_effect_shape stream d) as [E M]. intros id H. rewrite E in H.
+  pose proof (raise_max_alloc d id H) as G. lia.
+Qed.
+
 Lemma kx_save stream d : kx d (fst (save_effect stream d)).
 Proof.
-  unfold save_effect. destruct (U32_MAX <=? d_max_id d)%N; [apply kx_refl|].
-  destruct (negb _); [apply kx_refl|].
-  assert (G : forall st, (d_max_id d <= SaveState.s_max_id st)%N -> kx d (with_state d st)).
-  { intros st Hm. split; [|split].
-    - intros x Hx. left. exact Hx.
-    - exact Hm.
-    - auto. }
-  destruct stream.
-  - destruct (U32_MAX <=? d_max_id d + 1)%N; cbn [fst]; apply G; cbn; lia.
-  - cbn [fst]. apply G. cbn. lia.
+  destruct (save_effect_shape stream d) as [E M]. split; [|split].
+  - intros x Hx. left. rewrite E in Hx. exact Hx.
+  - cbn in M. lia.
+  - unfold doc_wf. rewrite E. auto.
 Qed.
 
 Theorem frame_save stream d : let d' := fst (save_effect stream d) in
-  d_objects d' = d_objects d /\ (d_max_id d <= d_max_id d')%N.
+  d_objects d' = d_objects d /\ (d_max_id d <= d_max_id d')%N /\ alloc_ok d'.
 Proof.
-  cbn zeta. split; [|apply (kx_save stream d)].
-  unfold save_effect. destruct (U32_MAX <=? d_max_id d)%N; [reflexivity|]. destruct (negb _); [reflexivity|].
-  destruct stream; [destruct (U32_MAX <=? d_max_id d + 1)%N|]; reflexivity.
+  cbn zeta. destruct (save_effect_shape stream d) as [E M]. split; [exact E|]. split; [cbn in M; lia | apply save_alloc].
 Qed.
 
 (* ---------- renumbering: Model/Renumber.v, facts from the C10 development ---------- *)
